@@ -386,14 +386,26 @@ func (session *HermesSession) Run(workingDir string, args []string, logID string
 							g.FELDW[Lindex] = g.FELDW[Lindex-1]
 						}
 
+						// horizons with field capacity given in the soil file keep these values (see Input)
+						explicitValues := g.FKA[Lindex] > 0
 						for LT := g.UKT[L-1] + 1; LT <= g.UKT[L]; LT++ {
 							LTindex := LT - 1
 							if LT < g.N+1 {
-								g.W[LTindex] = g.FELDW[Lindex] * (1 - g.STEIN[Lindex])
-								g.WMIN[LTindex] = g.LIM[Lindex] * (1 - g.STEIN[Lindex])
-								g.PORGES[LTindex] = g.PRGES[Lindex] * (1 - g.STEIN[Lindex])
-								g.WNOR[LTindex] = g.NORMFK[Lindex] * (1 - g.STEIN[Lindex])
+								if explicitValues {
+									g.W[LTindex] = g.W_Backup[LTindex]
+									g.WMIN[LTindex] = g.WMIN_Backup[LTindex]
+									g.PORGES[LTindex] = g.PORGES_Backup[LTindex]
+									g.WNOR[LTindex] = g.WNOR_Backup[LTindex]
+								} else {
+									g.W[LTindex] = g.FELDW[Lindex] * (1 - g.STEIN[Lindex])
+									g.WMIN[LTindex] = g.LIM[Lindex] * (1 - g.STEIN[Lindex])
+									g.PORGES[LTindex] = g.PRGES[Lindex] * (1 - g.STEIN[Lindex])
+									g.WNOR[LTindex] = g.NORMFK[Lindex] * (1 - g.STEIN[Lindex])
+								}
 							}
+						}
+						if explicitValues && L == 1 {
+							calcWRed(g.WP[Lindex], g.FKA[Lindex], &g)
 						}
 					}
 				} else {
